@@ -1,5 +1,5 @@
 SPECIFICATION TSpec
 CONSTANTS
-  Deviations = {"LetUndefinedIsNoop"}
+  Deviations = {}
 POSTCONDITION TraceAccepted
 CHECK_DEADLOCK FALSE
